@@ -479,8 +479,9 @@ def finish(prop_id, tier, seed, mod, results, wall) -> int:
     }
     if hasattr(mod, 'evidence_extra'):
         ev['coverage'].update(mod.evidence_extra(results))
-    os.makedirs(os.path.join(ROOT, 'evidence'), exist_ok=True)
-    with open(os.path.join(ROOT, 'evidence', f'{prop_id}.json'), 'w') as f:
+    evdir = os.environ.get('VERIF_EVIDENCE_DIR') or os.path.join(ROOT, 'evidence')    # override: developer runs on scratch copies
+    os.makedirs(evdir, exist_ok=True)
+    with open(os.path.join(evdir, f'{prop_id}.json'), 'w') as f:
         json.dump(ev, f, indent=1, default=repr)
     print(f"{prop_id} {tier}: obligations={n_ob} {verdicts} paths={tot['paths']} decisions={tot['decisions']} "
           f"witnesses={tot['witnesses']} solver_queries={tot['sq']} solver_time={tot['st']:.1f}s wall={wall:.1f}s")
